@@ -133,7 +133,8 @@ STRING_NORMALISERS = [
     ("struct-tag", lambda t: re.sub(r' "(?:[^"\\]|\\.)*"(?=;| \})', '', t)),
     ("chan-of-chan", strip_chan_parens),
     ("named-pointer-type", lambda t: re.sub(r'(?<![\w/])(?<!\w\.)((?:[\w/]+\.)?Ptr)\b', r'*\1', t)),
-    ("map-pointer-key", lambda t: re.sub(r'map\[\*+', 'map[', t)),
+    # Str(key) is the star-less stored form: an ODD number of leading stars loses one (`**T` is stored as such)
+    ("map-pointer-key", lambda t: re.sub(r'map\[(\*+)', lambda m: 'map[' + '*' * (len(m.group(1)) - len(m.group(1)) % 2), t)),
     ("main-package-path", lambda t: main_to_path(t)),
 ]
 
@@ -370,9 +371,9 @@ def ir_tie(ctx, types_, descs, stats, corr_bad):
     # its descriptor is needed (known finding emit:struct-embedding-generic-instance, witness built in the thorough tier): keep
     # those shapes out of the package whose IR is read back
     # and a package that spells one generic instance both as G[byte] and G[uint8] does not link (C07 known finding
-    # diffname:targ-basic-spelling): keep byte/rune out of generic instances here
+    # diffname:targ-basic-spelling / targ-fallback-spelling): keep byte/rune/any/aliases out of generic instances here
     def spelled_alias_in_instance(src):
-        return re.search(r'\b[GH]\[', src) is not None and re.search(r'\b(byte|rune)\b', src) is not None
+        return re.search(r'\b[GH]\[', src) is not None and re.search(r'\b(byte|rune|any|A[TEI])\b|interface\{\}', src) is not None
     rest = [i for i in sorted(descs)[len(CORPUS):] if not (types_[i][2] is not None and embeds_generic(types_[i][2])) and not spelled_alias_in_instance(types_[i][1])]
     stats["ir-tie:skipped-struct-embedding-generic-instance"] = len(descs) - len(CORPUS) - len(rest)
     pick = [i for i in sorted(descs)[:len(CORPUS)] if not spelled_alias_in_instance(types_[i][1])] + rest[:m]
